@@ -408,7 +408,7 @@ func (p *c12) RunCase(i int) *core.CaseResult {
 
 func (p *c12) Meta() core.Meta {
 	return core.Meta{
-		Rule:        "one case per query = (63 expression forms: literals, columns, paths, pipes, arithmetic, comparisons, IN / BETWEEN / LIKE / IS, CASE, tuples incl. nested, ARRAY, nested calls, every built-in family, subqueries incl. star / enclosing / dual-star, EXISTS, ONCE / SCOPED / ASYNC / SPINASYNC / SETVAR / FUSE / REPORT_WHEN) x (17 clause positions: select item, with star, function argument, nested argument, tuple element, CASE branch, IF argument, WHERE operand, subquery select list, CTE, derived table, UNION branch, DISTINCT, ORDER BY + LIMIT, GROUP BY with star, join side, nested FROM), plus 33 further queries (aggregates, group-by, every join strategy incl. INTO and PARALLEL, CTE thunks in scope of a star, back-references, DISTINCT over a subquery plus star, ASYNC inside derived tables / CTEs / subqueries, AWAIT, GLOBAL, dual, UNION); each on 3 documents under every Go-map iteration order within 1 (thorough 2) deviations, every schedule within 1 preemption when goroutines are spawned, and a second time in the same process. Oracle: reflective walk (only maps, slices, strings, numbers, booleans, nil; no pointer / func / chan / engine type / `<-` key / cycle); equal multisets across all explored executions, equal sequences unless grouping or a join is involved. non-trivial = the query returned rows; one function-registered-again case (5 queries x 3 x 3 registration calls, one Options value shared by two prepared queries / one Query executed twice, against a fresh query)",
+		Rule:        "one case per query = (63 expression forms: literals, columns, paths, pipes, arithmetic, comparisons, IN / BETWEEN / LIKE / IS, CASE, tuples incl. nested, ARRAY, nested calls, every built-in family, subqueries incl. star / enclosing / dual-star, EXISTS, ONCE / SCOPED / ASYNC / SPINASYNC / SETVAR / FUSE / REPORT_WHEN) x (17 clause positions: select item, with star, function argument, nested argument, tuple element, CASE branch, IF argument, WHERE operand, subquery select list, CTE, derived table, UNION branch, DISTINCT, ORDER BY + LIMIT, GROUP BY with star, join side, nested FROM), plus 33 further queries (aggregates, group-by, every join strategy incl. INTO and PARALLEL, CTE thunks in scope of a star, back-references, DISTINCT over a subquery plus star, ASYNC inside derived tables / CTEs / subqueries, AWAIT, GLOBAL, dual, UNION); each on 3 documents under every Go-map iteration order within 1 (thorough 2) deviations, every schedule within 1 preemption when goroutines are spawned, and a second time in the same process. Oracle: reflective walk (only maps, slices, strings, numbers, booleans, nil; no pointer / func / chan / engine type / `<-` key / cycle); equal multisets across all explored executions, equal sequences unless grouping or a join is involved. non-trivial = the query returned rows; one function-registered-again case (5 queries x 3 x 3 registration calls, one Options value shared by two prepared queries / one Query executed twice, against a fresh query); one re-execution case (10 queries whose rows carry deferred items x every fault point of the outermost statement: the second execution of the same Query returns plain data and the rows of a fresh Query)",
 		Assumptions: []string{"ASYNC / SPINASYNC / SETVAR / FUSE / REPORT_WHEN are exercised only as direct select-list items (and through CTE / derived table / ORDER BY), as the property states for async slots", "non-finite floats count as numbers", "a panic is C10's matter"},
 		Bounds:      map[string]any{"forms": len(c12Forms), "positions": len(c12Positions), "queries": len(p.cases), "map_order_deviations": p.bound, "preemptions": 1},
 		Exhaustive:  true,
